@@ -1,13 +1,14 @@
 package main
 
 import (
-	"os/exec"
 	"crypto/sha256"
 	"encoding/hex"
 	"encoding/json"
 	"flag"
 	"fmt"
+	"golang.org/x/tools/go/ssa"
 	"os"
+	"os/exec"
 	"path/filepath"
 	"regexp"
 	"sort"
@@ -17,14 +18,14 @@ import (
 
 // A Unit is one package under one build configuration with a set of contract groups.
 type Unit struct {
-	Pkg    string   // ./ecc/bn254/fr
-	Tags   string   // "purego" | ""
-	Groups []string // contract file groups: zz_verif_contracts_<group>.go
-	Funcs  []string // optional filter (contract names); empty = all
-	Verify []string // groups whose contracts are verified (default: all of Groups); the others are only used at call sites
-	MultiPartOnly bool // keep only functions with more than one alias partition (C19)
-	Tier   string   // "" = both tiers, "thorough" = thorough only
-	Deps   []string // "rel/pkg/path:group": contract groups of imported packages, applied at call sites only
+	Pkg           string   // ./ecc/bn254/fr
+	Tags          string   // "purego" | ""
+	Groups        []string // contract file groups: zz_verif_contracts_<group>.go
+	Funcs         []string // optional filter (contract names); empty = all
+	Verify        []string // groups whose contracts are verified (default: all of Groups); the others are only used at call sites
+	MultiPartOnly bool     // keep only functions with more than one alias partition (C19)
+	Tier          string   // "" = both tiers, "thorough" = thorough only
+	Deps          []string // "rel/pkg/path:group": contract groups of imported packages, applied at call sites only
 }
 
 type Plan struct {
@@ -136,6 +137,12 @@ func cmdProp(args []string) {
 	defer os.RemoveAll(scratch)
 	pool := NewPool(14, scratch, *timeout)
 
+	type resultMeta struct {
+		v   *Verifier
+		pkg *ssa.Package
+		c   *Contract
+	}
+	resMeta := map[*FuncResult]resultMeta{}
 	// group units by tags
 	byTags := map[string][]Unit{}
 	var tagOrder []string
@@ -249,6 +256,7 @@ func cmdProp(args []string) {
 				r := v.VerifyFunc(pkg, c, pool)
 				r.Tags = tags
 				results = append(results, r)
+				resMeta[r] = resultMeta{v, pkg, c}
 				if fn := v.findFunc(pkg, c.Func); fn != nil && fn.Pos().IsValid() {
 					hashFile(srcHash, *repo, v.fset.Position(fn.Pos()).Filename)
 				}
@@ -382,6 +390,7 @@ func cmdProp(args []string) {
 	// clause of the contract is evaluated on the outputs. A clause that is proved but false on a real run would mean
 	// that the verifier's model of the code is wrong: it is reported as a violation with the failing input.
 	var cross map[string]interface{}
+	var asmBounded []BoundedResult
 	if *tier == "thorough" {
 		type cand struct {
 			o *Obligation
@@ -441,6 +450,50 @@ func cmdProp(args []string) {
 				fmt.Printf("VIOLATION property=%s replay=%s obligation=%s tags=%s status=concrete-counterexample clauses=%v\n", id, rp, probe.Name, c.o.Ctx.Tags, rr.Violated)
 			}
 		}
+		// bounded stand-ins for assumed contracts of assembly routines: the routine itself is run on the
+		// boundary lattice and seeded random inputs, in every alias partition, and the assumed contract's clauses are
+		// evaluated on its outputs (bounded, never counted as proved)
+		for _, r := range results {
+			if r.Status != "assumed" || !strings.Contains(r.Reason, "assembly") || time.Now().After(deadline.Add(20*time.Minute)) {
+				continue
+			}
+			m, okm := resMeta[r]
+			if !okm {
+				continue
+			}
+			fn := m.v.findFunc(m.pkg, m.c.Func)
+			if fn == nil {
+				continue
+			}
+			m.v.resetRun()
+			m.v.setupLayer(m.pkg, m.c)
+			cases, verdict := 0, "agrees with the assumed contract"
+			for _, part := range m.v.partitions(fn, m.c) {
+				ctx := &ReplayCtx{V: m.v, Pkg: m.pkg, Fn: fn, C: m.c, Part: part, Tags: r.Tags, Repo: *repo}
+				if (m.c.Layer != "" && m.v.ringLayerField(m.pkg, m.c) == nil) || newReplayPlan(ctx) == nil {
+					verdict = "not replayable"
+					break
+				}
+				probe := &Obligation{Name: r.Func + "#bounded-assembly-check@" + part.label, Kind: "bounded", Ctx: ctx, Spec: "the assembly routine satisfies its assumed contract on the tried inputs"}
+				sc, _ := os.MkdirTemp("", "gcv-cross-")
+				rr := replayModel(*repo, probe, sc, id)
+				os.RemoveAll(sc)
+				if rr == nil {
+					continue
+				}
+				cases += rr.Tried
+				if rr.Confirmed {
+					violations++
+					verdict = "DISAGREES"
+					probe.Result = &SolverResult{Status: "concrete-counterexample", Solver: "go test"}
+					rp := writeReplayWith(replayDir, id, probe, *repo, rr)
+					fmt.Printf("VIOLATION property=%s replay=%s obligation=%s tags=%s status=concrete-counterexample clauses=%v\n", id, rp, probe.Name, r.Tags, rr.Violated)
+				}
+			}
+			if cases > 0 || verdict != "agrees with the assumed contract" {
+				asmBounded = append(asmBounded, BoundedResult{Function: r.Func + " [" + r.Tags + "] (assembly, assumed contract)", Bound: "boundary lattice of limb values (0, 1, 2^k-1, limbs of q, q-1, (q-1)/2) then seeded random inputs, 160 per alias partition", Cases: cases, Result: verdict})
+			}
+		}
 		cross = map[string]interface{}{"functions_checked": tried, "functions_not_replayable": unsupported, "inputs_run_on_real_code": inputs, "candidates": len(cands), "disagreements": disagreements,
 			"what": "sampled verified functions: boundary/random inputs run through the real code, every contract clause evaluated on the outputs"}
 	}
@@ -448,6 +501,7 @@ func cmdProp(args []string) {
 	if plan.Bounded != nil {
 		bounded = plan.Bounded(*tier, seed)
 	}
+	bounded = append(bounded, asmBounded...)
 
 	// ---- evidence ----
 	sort.Strings(funcs)
@@ -470,22 +524,22 @@ func cmdProp(args []string) {
 		"seed":        seed,
 		"level":       "proof",
 		"coverage": map[string]interface{}{
-			"obligations":              total,
-			"discharged":               discharged,
-			"checker_cmd":              "gcv prop -tier " + *tier + " " + id + "  (VC generation over go/ssa of /repo, discharge by z3-new 5.1.0 | z3 4.8.12 | cvc5 1.0 raced per obligation)",
-			"trusted_base":             append([]string{"Go front end: go/packages + go/types + go/ssa (x/tools v0.29.0)", "gcv VC generator (symbolic executor, term simplifier, SMT emitter)", "SMT solvers z3 5.1.0 / z3 4.8.12 / cvc5 1.0", "axiomatic semantics of math/bits and encoding/binary leaf functions"}, plan.Trusted...),
-			"functions_under_contract": funcs,
-			"functions_count":          len(funcs),
-			"by_backend":               bySolver,
-			"solver_seconds":           round3(solverSec),
-			"cache_hits":               cached,
-			"not_covered":              append(notCovered, plan.NotCovered...),
-			"known_findings_hit":       knownHit,
-			"bounded_standins":         bounded,
-			"slow_obligations":         orEmpty(slow),
-			"samples":                  samples,
-			"source_sha256":            srcHash,
-			"explanation":              plan.Note,
+			"obligations":               total,
+			"discharged":                discharged,
+			"checker_cmd":               "gcv prop -tier " + *tier + " " + id + "  (VC generation over go/ssa of /repo, discharge by z3-new 5.1.0 | z3 4.8.12 | cvc5 1.0 raced per obligation)",
+			"trusted_base":              append([]string{"Go front end: go/packages + go/types + go/ssa (x/tools v0.29.0)", "gcv VC generator (symbolic executor, term simplifier, SMT emitter)", "SMT solvers z3 5.1.0 / z3 4.8.12 / cvc5 1.0", "axiomatic semantics of math/bits and encoding/binary leaf functions"}, plan.Trusted...),
+			"functions_under_contract":  funcs,
+			"functions_count":           len(funcs),
+			"by_backend":                bySolver,
+			"solver_seconds":            round3(solverSec),
+			"cache_hits":                cached,
+			"not_covered":               append(notCovered, plan.NotCovered...),
+			"known_findings_hit":        knownHit,
+			"bounded_standins":          bounded,
+			"slow_obligations":          orEmpty(slow),
+			"samples":                   samples,
+			"source_sha256":             srcHash,
+			"explanation":               plan.Note,
 			"ring_interpretations_used": sortedKeys(usedRing),
 			"concrete_cross_check":      cross,
 		},
